@@ -3,6 +3,7 @@ package core
 import (
 	"bufio"
 	"bytes"
+	"context"
 	"fmt"
 	"io"
 	"os"
@@ -450,4 +451,45 @@ func Sany(module string) error {
 		return fmt.Errorf("sany %s: %v\n%s", module, err, tail(string(out), 2000))
 	}
 	return nil
+}
+
+// RunTLAPM checks the proofs of spec/proofs/<module>.tla with the TLA+ proof system (tlapm) in a
+// scratch directory. It returns the number of proved obligations; an error means a proof
+// obligation failed, tlapm is missing, or the time limit was hit.
+func RunTLAPM(module string, timeout time.Duration) (int, string, error) {
+	specDir := filepath.Join(VerifDir, "spec")
+	scratch, err := os.MkdirTemp("", "tlapm-"+module+"-")
+	if err != nil {
+		return 0, "", err
+	}
+	defer os.RemoveAll(scratch)
+	files, _ := filepath.Glob(filepath.Join(specDir, "*.tla"))
+	files = append(files, filepath.Join(specDir, "proofs", module+".tla"))
+	for _, f := range files {
+		b, err := os.ReadFile(f)
+		if err != nil {
+			return 0, "", err
+		}
+		if err := os.WriteFile(filepath.Join(scratch, filepath.Base(f)), b, 0o644); err != nil {
+			return 0, "", err
+		}
+	}
+	ctx, cancel := context.WithTimeout(context.Background(), timeout)
+	defer cancel()
+	cmd := exec.CommandContext(ctx, "tlapm", "--threads", "8", module+".tla")
+	cmd.Dir = scratch
+	out, err := cmd.CombinedOutput()
+	text := string(out)
+	m := regexp.MustCompile(`All (\d+) obligations? proved`).FindStringSubmatch(text)
+	if m == nil {
+		if err == nil {
+			err = fmt.Errorf("tlapm did not prove every obligation")
+		}
+		if len(text) > 800 {
+			text = text[len(text)-800:]
+		}
+		return 0, text, err
+	}
+	n, _ := strconv.Atoi(m[1])
+	return n, "", nil
 }
